@@ -177,6 +177,7 @@ def listedOps : List Footprint := [
   ⟨"glyphwidthpdf", [], []⟩,
   ⟨"glyphnames", ["result slice", "used map"], []⟩,
   ⟨"glyphname", [], []⟩,
+  ⟨"pdfmetrics", [], []⟩,
   ⟨"fontinfo", ["type1.FontInfo struct", "compiled regexp in PostScriptName"], []⟩,
   ⟨"ascffwrite", ["cff.Font struct", "cffStrings (data, rev map)", "charstring encoder state", "section buffers"], []⟩,
   ⟨"layout", ["Layouter", "two gtab.Context (seq, stack, keep)", "glyph.Info buffer"], []⟩,
